@@ -408,8 +408,95 @@ def sumord_struct(I, t):
 # ---------------------------------------------------------------------------
 
 
+class SplitList:
+    """s.split(sep) of a symbolic text: n = 1 + number of separators fields; field i is an uninterpreted function of
+    (this split, i).  What is known of the fields is stated when they are accessed (sound instances of the definition
+    of split): no field contains the separator; the fields 0..k read so far, joined by the separator, are a prefix of
+    the text (all of it when k is the last one); the last field is the text behind the last separator."""
+
+    _count = 0
+
+    def __init__(self, I, text, sep, n=None, fld=None, dropped=0):
+        SplitList._count += 1
+        self.text, self.sep = text, sep
+        self.fld = fld if fld is not None else z3.Function("split%d!%s" % (SplitList._count, I.ctx.fresh_name("f")), z3.IntSort(), z3.StringSort())
+        if n is None:
+            n = z3.Int(I.ctx.fresh_name("nfields"))
+            I.ctx.assume(SBool(z3.And(n >= 1, (n == 1) == z3.Not(z3.Contains(text, z3.StringVal(sep))))))
+        self.n = n
+        self.dropped = dropped  # fields cut off at the end by [:-1]
+
+    def _field(self, I, i):
+        f = self.fld(i)
+        I.ctx.assume(SBool(z3.Not(z3.Contains(f, z3.StringVal(self.sep)))))
+        return f
+
+    def vlen(self, I):
+        return SInt(self.n)
+
+    def vtruth(self, I):
+        return True
+
+    def vgetitem(self, I, k):
+        sep = z3.StringVal(self.sep)
+        total = self.n + self.dropped  # number of fields of the original split
+        if isinstance(k, slice):
+            if k.start is None and k.stop == -1 and k.step is None:
+                if not I.ctx.branch(SBool(self.n >= 1)):
+                    return SplitList(I, self.text, self.sep, self.n, self.fld, self.dropped)
+                return SplitList(I, self.text, self.sep, self.n - 1, self.fld, self.dropped + 1)
+            raise Outside("slice of a split list")
+        if isinstance(k, int) and k >= 0:
+            if not I.ctx.branch(SBool(self.n > k)):
+                I.raise_("IndexError")
+            parts = []
+            for i in range(k + 1):
+                parts.append(self._field(I, z3.IntVal(i)))
+                parts.append(sep)
+            joined = z3.Concat(*parts[:-1]) if len(parts) > 2 else parts[0]
+            # f0 sep f1 ... fk is a prefix of the text; followed by a separator unless fk is the last field of the text
+            I.ctx.assume(SBool(z3.If(total == k + 1, joined == self.text, z3.PrefixOf(z3.Concat(joined, sep), self.text))))
+            return SStr(parts[-2])
+        if k == -1:
+            if not I.ctx.branch(SBool(self.n >= 1)):
+                I.raise_("IndexError")
+            if self.dropped:
+                # (the last of the remaining fields: only its freedom from separators is stated)
+                return SStr(self._field(I, self.n - 1))
+            last = self._field(I, self.n - 1)
+            I.ctx.assume(SBool(z3.If(self.n == 1, last == self.text, z3.SuffixOf(z3.Concat(sep, last), self.text))))
+            return SStr(last)
+        raise Outside("index into a split list")
+
+    def as_sseq(self):
+        from .interp import SSeq
+        holder = self
+
+        class _Elem:
+            pass
+
+        def elem(i):
+            return SStr(holder.fld(_t(i)))
+        return SSeq(SInt(self.n), elem, "fields")
+
+
 def sym_split(I, s, a, k):
-    raise Outside("split of a symbolic string")
+    """str.split on a symbolic text: with maxsplit == 1 a case split on whether the separator occurs; without
+    maxsplit the SplitList abstraction."""
+    if not a or not isinstance(a[0], str) or len(a[0]) != 1:
+        raise Outside("split with a non-literal or multi-character separator")
+    sep = a[0]
+    maxsplit = a[1] if len(a) > 1 else k.get("maxsplit", -1)
+    t = _t(s)
+    if maxsplit == 1:
+        from .interp import PyList
+        idx = z3.IndexOf(t, z3.StringVal(sep), 0)
+        if not I.ctx.branch(SBool(idx >= 0)):
+            return PyList([s])
+        return PyList([SStr(z3.SubString(t, 0, idx)), SStr(z3.SubString(t, idx + 1, z3.Length(t) - idx - 1))])
+    if maxsplit == -1:
+        return SplitList(I, t, sep)
+    raise Outside("split with maxsplit %r" % (maxsplit,))
 
 
 def regex_to_z3(pattern):
